@@ -1,3 +1,6 @@
+import functools
+from typing import Any, Callable
+
 import numpy
 
 from formulaic.utils.stateful_transforms import stateful_transform
@@ -29,15 +32,35 @@ __all__ = [
     "TRANSFORMS",
 ]
 
+
+
+def _in_double_precision(func: Callable) -> Callable:
+    """
+    numpy evaluates its floating-point functions in half / single precision
+    for 8 and 16 bit integer (and boolean) input, e.g. `numpy.exp(int8(12))` is
+    `inf`; the functions preloaded into formulae always compute in double
+    precision.
+    """
+
+    @functools.wraps(func)
+    def wrapped(x: Any, *args: Any, **kwargs: Any) -> Any:
+        dtype = getattr(x, "dtype", None)
+        if isinstance(dtype, numpy.dtype) and dtype.kind in "iub" and dtype.itemsize < 4:
+            x = x.astype(numpy.float64)
+        return func(x, *args, **kwargs)
+
+    return wrapped
+
+
 TRANSFORMS = {
     # Common transforms
     "np": numpy,
-    "log": numpy.log,
-    "log10": numpy.log10,
-    "log2": numpy.log2,
-    "exp": numpy.exp,
+    "log": _in_double_precision(numpy.log),
+    "log10": _in_double_precision(numpy.log10),
+    "log2": _in_double_precision(numpy.log2),
+    "exp": _in_double_precision(numpy.exp),
     "exp10": lambda x: numpy.power(10.0, x),
-    "exp2": numpy.exp2,
+    "exp2": _in_double_precision(numpy.exp2),
     # Bespoke transforms
     "bs": basis_spline,
     "cc": cyclic_cubic_spline,
